@@ -81,7 +81,7 @@ structure valid (ws : Bytes) (ps : List Pkg) : Prop where
   depsDefined : DepsDefined (allNodes ps)
   noCycle : NoCycle (allNodes ps)
   noConflict : ¬ Conflict (allNodes ps)
-  inputs : ∀ t, Node.target t ∈ allNodes ps → ∀ i ∈ t.inputs, ¬ InputEscapes i
+  inputs : ∀ t, Node.target t ∈ allNodes ps → ∀ i ∈ t.checkedInputs, ¬ InputEscapes i
   outputs : ∀ t, Node.target t ∈ allNodes ps → ∀ o ∈ t.outs, ¬ OutputEscapes ws t o
   testDeps : ¬ BadTestDep (allNodes ps)
 
